@@ -1,4 +1,5 @@
 import Canopy.Gen.Transport
+import Canopy.Model.Bytes
 /-!
 M-handshake (C17): `p2p.NewHandshake` as a symbolic (Dolev-Yao) term model. Core Lean only.
 
@@ -144,5 +145,19 @@ inductive DY (W : World) : Term → Prop
   | fst {a b} : DY W (pair a b) → DY W a
   | snd {a b} : DY W (pair a b) → DY W b
   | pmeta (n c) : DY W (pmeta n c)
+
+/-! ### the signature cache in front of every `VerifyBytes`
+
+`peerPublicKey.VerifyBytes(challenge, sig)` first asks the process-wide signature cache
+(`crypto.CheckCache`): a hit returns `true` without verifying. The symbolic model's exact-match
+verification (`s ≠ sig (atom j) (chal …)` in `Party.finish`) is faithful only if a hit can come from
+nothing but an earlier verification of this very (key, message, signature) triple. -/
+
+/-- `BatchTuple.Key()`: public key ‖ message ‖ signature -/
+def cacheKey (pk m sg : Canopy.Bytes) : Canopy.Bytes := pk ++ m ++ sg
+
+/-- `CheckCache` against the triples verified (and remembered) so far -/
+def cacheHit (remembered : List (Canopy.Bytes × Canopy.Bytes × Canopy.Bytes)) (pk m sg : Canopy.Bytes) : Bool :=
+  (remembered.map fun t => cacheKey t.1 t.2.1 t.2.2).contains (cacheKey pk m sg)
 
 end Canopy.Handshake
